@@ -47,6 +47,7 @@ static tbuf_t *tls_init(void)
 static void event_cb(int kind, long a, long b, long c, long d, long e, long f)
 {
     if (!g_events_on) return;
+    if (g_events_on == 2 && kind != SLUV_E_WORK_ALLOC && kind != SLUV_E_WORK_FREE) return;
     tbuf_t *t = tls ? tls : tls_init();
     if (kind == SLUV_E_SCHED && b < 0) {
         /* idle scheduler polls: count all of them, log only the first of a streak */
@@ -108,6 +109,10 @@ static void perturb_cb(int site)
             if (p < 150u * lvl) { nap_us(1 + (long)((r >> 10) % 5000)); t->perturbs++; }
         }
         break;
+    case 7: /* a thread preempted between carving its work array from the user's buffer and re-aligning it */
+        if (site == SLUV_Y_WORK_ALIGN) { nap_us(50 + (long)((r >> 10) % 500)); t->perturbs++; }
+        else if (p < 40u * lvl) { sched_yield(); t->perturbs++; }
+        break;
     case 6: /* a thread preempted between the two stores of a partition swap */
         if (site == SLUV_Y_MID_SWAP && p < 500u) { nap_us(300 + (long)((r >> 10) % 2000)); t->perturbs++; }
         else if (site == SLUV_Y_BEFORE_PRUNE && p < 300u) { nap_us(1 + (long)((r >> 10) % 300)); t->perturbs++; }
@@ -145,7 +150,7 @@ void mon_enable(int events, uint64_t pert_seed, int pert_mode, int pert_level, i
 {
     g_nprocs = nprocs > 64 ? 64 : nprocs;
     g_nprocs_real = nprocs;
-    g_watch_active = (events && nprocs >= 1);
+    g_watch_active = (events == 1 && nprocs >= 1);
     g_events_on = events; g_pert_seed = pert_seed; g_pert_mode = pert_mode; g_pert_level = pert_level;
     /* threads are created per factorization: fresh tls each time; old buffers are kept (reset) */
 }
@@ -163,7 +168,7 @@ size_t mon_collect(ev_t **out)
     for (tbuf_t *t = all_bufs; t; t = t->next) tot += t->n;
     ev_t *ev = malloc((tot + 1) * sizeof(ev_t));
     size_t k = 0;
-    for (tbuf_t *t = all_bufs; t; t = t->next) { memcpy(ev + k, t->ev, t->n * sizeof(ev_t)); k += t->n; }
+    for (tbuf_t *t = all_bufs; t; t = t->next) { if (t->n) memcpy(ev + k, t->ev, t->n * sizeof(ev_t)); k += t->n; }
     pthread_mutex_unlock(&all_lock);
     qsort(ev, tot, sizeof(ev_t), ev_cmp);
     *out = ev;
@@ -503,19 +508,36 @@ void mon_slots_check_report(void) {}
 static void *watch_main(void *arg)
 {
     (void)arg;
-    int stable = 0; uint64_t lastseq = 0;
+    enum { MAXW = 256 };
+    static long base[MAXW];
+    uint64_t wseq = 0; int wvalid = 0, age = 0;
     for (;;) {
-        nap_us(200000);
-        if (!g_watch_active) { stable = 0; continue; }
-        int idle = 0, workers = 0;
-        pthread_mutex_lock(&all_lock);
-        for (tbuf_t *t = all_bufs; t; t = t->next) { if (t->sched_none || t->n) { ++workers; if (t->last_none) ++idle; } }
-        pthread_mutex_unlock(&all_lock);
+        nap_us(100000);
+        if (!g_watch_active) { wvalid = 0; continue; }
         uint64_t sq = atomic_load(&g_seq);
-        if (workers >= g_nprocs_real && idle == workers && sq == lastseq) ++stable; else stable = 0;
-        lastseq = sq;
-        if (stable >= 8 && g_watch_active) {
-            fprintf(stderr, "\n@deadlock %ld all %d workers poll an empty scheduler and none holds a panel (no event for %d polls)\n", hx_cur_case_id, workers, stable);
+        int idle = 0, workers = 0, advanced = 0;
+        pthread_mutex_lock(&all_lock);
+        if (!wvalid || sq != wseq) {
+            /* (re)start the observation window: remember every worker's count of empty-handed scheduler calls */
+            int k = 0;
+            for (tbuf_t *t = all_bufs; t && k < MAXW; t = t->next, ++k) base[k] = t->sched_none;
+            wseq = sq; wvalid = 1; age = 0;
+            pthread_mutex_unlock(&all_lock);
+            continue;
+        }
+        int k = 0;
+        for (tbuf_t *t = all_bufs; t && k < MAXW; t = t->next, ++k) {
+            ++workers;
+            if (t->last_none) ++idle;
+            if (t->sched_none - base[k] >= 2) ++advanced;
+        }
+        pthread_mutex_unlock(&all_lock);
+        ++age;
+        /* no event has been logged since the window opened (so no panel was taken, finished or released), every worker is
+           empty-handed, and every worker has since completed at least one more scheduler call that found nothing: the
+           scheduler's state can no longer change, whatever the timing */
+        if (workers >= g_nprocs_real && idle == workers && advanced == workers && age >= 5 && atomic_load(&g_seq) == wseq && g_watch_active) {
+            fprintf(stderr, "\n@deadlock %ld all %d workers poll an empty scheduler, none holds a panel, each polled again without any event in between\n", hx_cur_case_id, workers);
             fflush(stderr);
             _exit(86);
         }
@@ -530,4 +552,42 @@ void mon_watch_start(void)
     pthread_t th; pthread_attr_t at;
     pthread_attr_init(&at); pthread_attr_setdetachstate(&at, PTHREAD_CREATE_DETACHED);
     if (pthread_create(&th, &at, watch_main, NULL) == 0) hx_extra_threads = 1;
+}
+
+/* ---- work arrays carved from the caller's workspace (C14) -----------------
+ * WORK_ALLOC: a = iwork, b = bytes, c = dwork, d = bytes, e = 1 if carved from the user's buffer; WORK_FREE: a = iwork, b = dwork.
+ * Two arrays that are live at the same time (by event sequence numbers) must not share a byte, and user-space
+ * arrays must lie inside [ws, ws + lw). */
+long mon_check_work(const ev_t *ev, size_t nev, const void *ws, long lw, const char *key)
+{
+    typedef struct { uint64_t s0, s1; unsigned long lo, hi; int tid, isd; } blk_t;
+    blk_t *B = xmalloc((2 * nev + 2) * sizeof(blk_t)); size_t nb = 0; long nalloc = 0, nfail = 0;
+    for (size_t i = 0; i < nev; ++i) {
+        if (ev[i].kind == SLUV_E_WORK_ALLOC) {
+            ++nalloc;
+            if (!ev[i].e) continue;         /* malloc'ed: the allocator keeps them apart */
+            B[nb++] = (blk_t){ ev[i].seq, UINT64_MAX, (unsigned long)ev[i].a, (unsigned long)ev[i].a + (unsigned long)ev[i].b, ev[i].tid, 0 };
+            B[nb++] = (blk_t){ ev[i].seq, UINT64_MAX, (unsigned long)ev[i].c, (unsigned long)ev[i].c + (unsigned long)ev[i].d, ev[i].tid, 1 };
+        } else if (ev[i].kind == SLUV_E_WORK_FREE) {
+            for (size_t k = 0; k < nb; ++k) if (B[k].s1 == UINT64_MAX && (B[k].lo == (unsigned long)ev[i].a || B[k].lo == (unsigned long)ev[i].b)) B[k].s1 = ev[i].seq;
+        }
+    }
+    for (size_t x = 0; x < nb && nfail < 3; ++x) {
+        if (ws && (B[x].lo < (unsigned long)ws || B[x].hi > (unsigned long)ws + (unsigned long)lw)) {
+            char k2[96]; snprintf(k2, sizeof k2, "%s|work-array-outside-workspace", key);
+            jo_fail(k2, "thread %d: %s work array [%#lx,%#lx) is not inside the caller's workspace [%#lx,%#lx)", B[x].tid, B[x].isd ? "floating-point" : "integer", B[x].lo, B[x].hi, (unsigned long)ws, (unsigned long)ws + (unsigned long)lw);
+            ++nfail;
+        }
+        for (size_t y = x + 1; y < nb && nfail < 3; ++y) {
+            if (B[x].lo < B[y].hi && B[y].lo < B[x].hi && B[x].s0 < B[y].s1 && B[y].s0 < B[x].s1) {
+                char k2[96]; snprintf(k2, sizeof k2, "%s|work-arrays-overlap", key);
+                unsigned long lo = B[x].lo > B[y].lo ? B[x].lo : B[y].lo, hi = B[x].hi < B[y].hi ? B[x].hi : B[y].hi;
+                jo_fail(k2, "%s work array of thread %d and %s work array of thread %d share %lu bytes of the caller's workspace while both are live (workspace offset %lu of %ld, end of buffer %s8-byte aligned)",
+                        B[x].isd ? "floating-point" : "integer", B[x].tid, B[y].isd ? "floating-point" : "integer", B[y].tid, hi - lo, ws ? lo - (unsigned long)ws : 0UL, lw, (((unsigned long)ws + (unsigned long)lw) & 7) ? "NOT " : "");
+                ++nfail;
+            }
+        }
+    }
+    free(B);
+    return nalloc;
 }
